@@ -61,8 +61,8 @@ type Closure struct {
 }
 
 type MapV struct {
-	m    map[string]Value
-	keys []string
+	m    map[interface{}]Value // keys: string | int64 | bool | *Cell (pointer identity)
+	keys []interface{}
 }
 
 // ErrObj is the opaque error produced by the fmt.Errorf / errors.New stubs.
